@@ -72,9 +72,19 @@ func C16(c *Ctx) {
 	r.Explanation = "(A2) every write of a module's Params section is guarded, in the writing function, by Params.Validate()==nil on the very value that is marshalled; (A1) only keeper SetParams and the v3 migration write that section; " +
 		"(A8) no call site of a params writer (SetParams) drops its error, in handlers, genesis import or migrations; (A7) Params.Validate reads every field of the Params struct, hands it to a validator that has a value-dependent rejecting branch, and contains the cross-field rejections (default<=max, signers>=min accepts); MsgUpdateParams.ValidateBasic reaches Validate and propagates its error; " +
 		"(A6) no caching: no keeper struct or package variable has a Params type, and no keeper method stores through its receiver, so every use reads the store. Decides these structural necessary conditions for all inputs and call sites; numeric bounds inside validators are only checked for presence."
-	r.Rules = []string{"A1.params-writers", "A2.params-validated", "A8.setparams-error", "A7.validate-fields", "A7.validate-rule", "A7.validate-cross-field", "A7.update-validatebasic", "A3.update-stores", "A6.no-params-cache", "A7.fee-formula"}
+	r.Rules = []string{"A1.params-writers", "A2.params-validated", "A8.setparams-error", "A7.validate-fields", "A7.validate-rule", "A7.validate-cross-field", "A7.update-validatebasic", "A3.update-stores", "A6.no-params-cache", "A7.fee-formula", "TS.status-transition", "A2.decorator-checks"}
 	// a parameter takes effect as set: the fee split uses the stored rate itself
 	feeFormula(c)
+	// ... and the purchase-order thresholds in force decide every tally (the transition rules of C03: an order is settled by
+	// exactly one of the threshold conditions, each held against the stored parameters)
+	statusTypestate(c)
+	// ... and the WRKChain / BEACON fees in force are the ones a transaction is held against whenever the mempool looks at it
+	// (first check and re-check after a block alike)
+	for _, m := range []string{"wrkchain", "beacon"} {
+		if _, f := feeFunc(c, m); f != nil {
+			decoratorChecks(c, m, f)
+		}
+	}
 	r.Trusted = []string{"baseapp/gov call ValidateBasic before dispatch", "sdk.ValidateDenom", "codec marshalling"}
 	r.NotDecided = []string{"numeric bounds inside validators beyond presence of a rejecting comparison", "governance proposal flow"}
 
@@ -422,7 +432,20 @@ func validateCoverage(c *Ctx, m string, wantFields int) {
 			mentions := func(e *ir.Expr, f string) bool {
 				return e.Any(func(z *ir.Expr) bool { return isParamField(z, f) })
 			}
-			return (op == "<" && mentions(x, "EntSigners") && mentions(y, "MinAccepts")) || (op == ">" && mentions(y, "EntSigners") && mentions(x, "MinAccepts"))
+			// the number of signers is the number of elements of the split list (the same split the tally counts decisions
+			// against) — not the length of the comma-separated string
+			count := func(e *ir.Expr) bool {
+				e = w.Expand(e, 2)
+				return e.Any(func(z *ir.Expr) bool {
+					if z.Op != "call" || z.Name != "builtin:len" || len(z.Args) != 1 {
+						return false
+					}
+					return z.Args[0].Any(func(s *ir.Expr) bool {
+						return s.Op == "call" && (strings.Contains(s.Name, "strings.Split") || strings.Contains(s.Name, "strings.Fields")) && mentions(s, "EntSigners")
+					})
+				})
+			}
+			return (op == "<" && count(x) && mentions(y, "MinAccepts")) || (op == ">" && count(y) && mentions(x, "MinAccepts"))
 		})
 		r.Require(ok, "A7.validate-cross-field", m+"|signers>=minaccepts", w.Pos(vf.Pos()), "Validate rejects fewer signers than MinAccepts", "no such rejecting comparison")
 	case "stream":
